@@ -32,6 +32,7 @@ type Program struct {
 	AllowedErr []string // allow-listed type errors actually seen
 	RepoDir    string
 
+	phiHook   func(*ssa.Phi) ssa.Value
 	domCache  map[*ssa.Function]*domInfo
 	termCache map[termKey]*Term
 }
